@@ -245,6 +245,46 @@ func c12KeyKinds(c *wk.Ctx) {
 	}
 }
 
+// c12AliasedStruct: ONE struct-mapped object registered under two (three) keys of a one-of whose discriminator is not
+// a field of the struct: which key Serialize writes for a struct value is the schema's choice, but the same choice
+// every time.
+func c12AliasedStruct(c *wk.Ctx) {
+	build := func(intKeys bool) schema.Type {
+		member := schema.NewStructMappedObjectSchema[gen.P5]("K", map[string]*schema.PropertySchema{
+			"y": schema.NewPropertySchema(schema.NewStringSchema(nil, nil, nil), nil, false, nil, nil, nil, nil, nil)})
+		if intKeys {
+			return schema.NewOneOfIntSchema[any](map[int64]schema.Object{3: member, 1: member, 2: member}, "_type", false)
+		}
+		return schema.NewOneOfStringSchema[any](map[string]schema.Object{"k8s": member, "kubernetes": member, "kube": member}, "_type", false)
+	}
+	for _, intKeys := range []bool{false, true} {
+		outcomes := map[string]int{}
+		t := build(intKeys)
+		for rep := 0; rep < 300; rep++ {
+			if rep%3 == 0 {
+				t = build(intKeys)
+			}
+			var out any
+			var err error
+			if p, site, msg, _ := wk.Guard(func() { out, err = t.Serialize(gen.P5{Y: "v"}) }); p {
+				c.Violation("C12:panic:Serialize:"+site, "Serialize panicked on a struct value of an aliased one-of: "+msg, nil)
+				return
+			}
+			c.Count("probe_evaluations")
+			o := "ok " + cmpx.Canon(out)
+			if err != nil {
+				o = "rejected"
+			}
+			outcomes[o]++
+		}
+		c.Eval(wk.Hash64("directed-aliased-struct", fmt.Sprint(intKeys)), true)
+		if len(outcomes) > 1 {
+			c.Violation("C12:not-deterministic:Serialize", fmt.Sprintf("300 evaluations of Serialize on the same struct value (a one-of with one struct-mapped object under three keys) disagree: %v", outcomes),
+				map[string]any{"int_keys": intKeys, "outcomes": outcomes})
+		}
+	}
+}
+
 func runC12(c *wk.Ctx) {
 	c.Meta("rule", "per case: one generated shape built twice (a 'used' and a 'fresh' instance, each with its own self / twin / incompatible-mutant schema arguments); a probe set (valid inputs in random representations, perturbed and hostile inputs for Unserialize; natives for Validate/Serialize; data and schema arguments for ValidateCompatibility) is first evaluated on the fresh instance. The used instance then goes through a random history of 1..30 calls (accepted, rejected and default-filling ones, failing schema comparisons), with a deep snapshot of every argument before and after, and with every container reachable from every returned value overwritten in place. Afterwards each probe is evaluated 16 times on the used instance. Oracle: the argument snapshot is unchanged by the call and by scrambling the result; all 16 evaluations agree; they equal the fresh instance's outcome; SelfSerialize of the used scope equals that of the fresh one. distinct = hash(shape, history); non-trivial = history length >= 2")
 	c.Meta("assumptions", []string{"GetDefaults() is deliberately not compared (the SDK extends decoded sub-object defaults in place, which changes that accessor but neither the self-description nor behaviour)",
@@ -259,6 +299,10 @@ func runC12(c *wk.Ctx) {
 	if c.Mine(1) {
 		c.Begin(1, "directed: equal keys of different Go integer types")
 		c12KeyKinds(c)
+	}
+	if c.Mine(2) {
+		c.Begin(2, "directed: a struct-mapped member under two one-of keys, serialized")
+		c12AliasedStruct(c)
 	}
 	n := c.N(6000, 600000)
 	c.Cases(n, func(idx int64, r *wk.Rand) {
